@@ -117,19 +117,26 @@ var badVersions = []string{"not-a-version", "1.2.3.4", "1.x", "latest", "1.0.0-"
 func (g *gen) osvRange(eco string) osvRange {
 	r := osvRange{}
 	switch x := g.r.Intn(20); {
-	case x < 8:
+	case x < 9:
 		r.Type = "SEMVER"
-	case x < 16:
+	case x < 17:
 		r.Type = "ECOSYSTEM"
-	case x < 18:
+	case x < 19:
 		r.Type = "GIT"
-	case x == 18:
-		r.Type = ""
 	default:
-		r.Type = "OTHER"
+		r.Type = g.r.Pick("", "OTHER")
+	}
+	if r.Type == "ECOSYSTEM" && (eco == "Go" || eco == "npm") && !g.r.Chance(1, 20) {
+		r.Type = "SEMVER" // Go and npm advisories use SEMVER ranges; an ECOSYSTEM range there makes Insert fail
+	}
+	if (r.Type == "" || r.Type == "OTHER") && !g.r.Chance(1, 8) {
+		r.Type = "SEMVER"
 	}
 	cur := [3]int{0, 0, 0}
-	n := g.r.Intn(4)
+	n := 1 + g.r.Intn(3)
+	if g.r.Chance(1, 12) {
+		n = 0
+	}
 	wellShaped := true
 	for i := 0; i < n; i++ {
 		iv := osvInterval{}
@@ -160,7 +167,7 @@ func (g *gen) osvRange(eco string) osvRange {
 		}
 	}
 	// occasionally break the shape: these event lists are compared with the model only
-	if g.r.Chance(1, 7) {
+	if g.r.Chance(1, 16) {
 		wellShaped = false
 		for k, m := 0, 1+g.r.Intn(2); k < m; k++ {
 			var e osvEvent
@@ -254,7 +261,11 @@ func (g *gen) osvAdvisory(updEco string) osvAdvisory {
 	for i, n := 0, g.r.Intn(3); i < n; i++ {
 		a.Refs = append(a.Refs, g.r.Pick(genURL(g), genURL(g), ""))
 	}
-	for i, n := 0, g.r.Intn(4); i < n; i++ {
+	naf := 1 + g.r.Intn(3)
+	if g.r.Chance(1, 10) {
+		naf = 0
+	}
+	for i := 0; i < naf; i++ {
 		af := osvAffected{Ecosystem: updEco, Name: g.pkg()}
 		if g.r.Chance(1, 4) {
 			af.Ecosystem = g.r.Pick(osvEcosystems...)
@@ -265,7 +276,11 @@ func (g *gen) osvAdvisory(updEco string) osvAdvisory {
 		if g.r.Chance(1, 4) {
 			af.Versions = []string{"1.0.0", "1.0.1"}
 		}
-		for j, m := 0, g.r.Intn(3); j < m; j++ {
+		nr := 1 + g.r.Intn(2)
+		if g.r.Chance(1, 10) {
+			nr = 0
+		}
+		for j := 0; j < nr; j++ {
 			af.Ranges = append(af.Ranges, g.osvRange(af.Ecosystem))
 		}
 		a.Affected = append(a.Affected, af)
@@ -546,12 +561,12 @@ func osvExtra(v *claircore.Vulnerability) string {
 func runOsv(r *hx.Run, g *gen, cfg hx.Config) {
 	osvWitnesses(r)
 	ecos := []string{"PyPI", "Go", "npm", "Maven", "RubyGems", "crates.io", "Packagist", "NuGet"}
-	for it, n := 0, cfg.N(500, 20000); it < n && !r.Stop(); it++ {
+	for it, n := 0, cfg.N(3000, 20000); it < n && !r.Stop(); it++ {
 		eco := ecos[it%len(ecos)]
 		repoName := strings.ToLower(eco)
 		p := osv.ParserForC14(repoName)
 		var advs []osvAdvisory
-		for i, m := 0, g.r.Intn(4); i < m; i++ {
+		for i, m := 0, 1+g.r.Intn(3); i < m; i++ {
 			advs = append(advs, g.osvAdvisory(eco))
 		}
 		osvScenario(r, p, repoName, advs, true)
